@@ -455,6 +455,28 @@ func C18(p *ir.Program, r *report.R) {
 		r.Check("K3", "conn.MConnection.conn/data-moves-only-through-the-buffered-ends", "-", len(bad) == 0 && n >= 2, fmt.Sprintf("%d uses of c.conn: closed / asked for an address / handed to bufio, never read or written directly: %v", n, bad))
 	}
 
+	// ---- sender and receiver cut packets by the same configured size -------------------------------------------------
+	// The receiver's per-packet limit (maxPacketMsgSize) is computed from config.MaxPacketMsgPayloadSize; the
+	// sender cuts messages by channel.maxPacketMsgPayloadSize. Both come from the connection's configuration.
+	{
+		nc := p.Func("libs/p2p/conn", "newChannel")
+		okS := false
+		for _, st := range p.Stores(p.Field("libs/p2p/conn", "Channel.maxPacketMsgPayloadSize")) {
+			if ir.EnclosingTop(st.Fn) == nc {
+				okS = ir.Render(st.Val) == "conn.config.MaxPacketMsgPayloadSize"
+				r.Check("K5", "conn.newChannel/packet-size-from-the-connection-config", p.InstrPos(st.Instr), okS, "channel.maxPacketMsgPayloadSize = conn.config.MaxPacketMsgPayloadSize (what maxPacketMsgSize uses): "+ir.Render(st.Val))
+			}
+		}
+		mp := p.Func("libs/p2p/conn", "MConnection.maxPacketMsgSize")
+		uses := false
+		ir.Instrs(mp, func(in ssa.Instruction) {
+			if strings.Contains(ir.RenderInstr(in), "c.config.MaxPacketMsgPayloadSize") {
+				uses = true
+			}
+		})
+		r.Check("K5", "conn/packet-size/writer~reader", p.Pos(nc.Pos()), okS && uses, "sender and receiver sizes both derive from config.MaxPacketMsgPayloadSize")
+	}
+
 	// ---- channel defaults are the package defaults ----------------------------------------------------------------
 	// FillDefaults replaces a zero capacity by the package constant of that capacity. A default taken from
 	// another field (the 128 KiB receive buffer as the message capacity) makes every reactor that relies on
